@@ -305,11 +305,16 @@ def process_unit(unit, tier, keep=False, verbose=False, seed=0):
     if os.path.isfile(basef):
         with open(basef) as f:
             base = json.load(f)
+    seen_keys = {}
     for it in gen["items"]:
+        key = it.file + " :: " + it.name
+        seen_keys[key] = seen_keys.get(key, 0) + 1
+        if seen_keys[key] > 1:
+            key += f" #{seen_keys[key]}"        # several ranges of one function
         r.functions.append({"item": it.name, "kind": it.kind, "file": it.file, "lines": list(it.lines), "sha256": it.sha,
-                            "rules": sorted(it.fired)})
+                            "rules": sorted(it.fired), "key": key})
         if base is not None:
-            bsha = base["items"].get(it.file + " :: " + it.name)
+            bsha = base["items"].get(key)
             if bsha != it.sha:
                 r.changed_items.append(it.name)
     # explicit clause count: annotation segments + prelude text
@@ -639,7 +644,7 @@ def cmd_baseline(a):
         head = subprocess.run(["git", "-C", rsx.REPO, "rev-parse", "HEAD"], capture_output=True, text=True).stdout.strip()
         with open(os.path.join(BASE, f"{u}.json"), "w") as f:
             json.dump({"unit": u, "repo_head": head, "verified": r.verified, "explicit": r.explicit,
-                       "items": {x["file"] + " :: " + x["item"]: x["sha256"] for x in r.functions}}, f, indent=1, sort_keys=True)
+                       "items": {x["key"]: x["sha256"] for x in r.functions}}, f, indent=1, sort_keys=True)
         print(f"{u}: baseline written ({r.verified} functions, {r.explicit} explicit clauses)")
     return 0
 
